@@ -104,15 +104,44 @@ def hist2_term(elt, nvars, xs, ys, ops):
 
 WRITES = {"set", "idxset", "idxelem", "assign", "apply"}
 
-def mk1(elt, nvars, nodes, ops, family, tol=1e-12):
-    nt = len(nodes) >= 2 and any(o[0] in WRITES for o in ops)
-    return Case(elt, hist1_line(elt, nvars, nodes, ops), hist1_term(elt, nvars, nodes, ops),
-                meta={"kind": "hist1", "nvars": nvars, "nodes": nodes, "ops": ops}, family=family, nontrivial=nt, tol=tol)
+# The model side is dominated by coqc printing the answer (about 0.3 ms per small Z, 2 ms per 64-bit float
+# pattern), so a case is run through the model only while the family's budget lasts; every case is run on the
+# implementation and searched.
+BUDGET = {}
+def _cost(elt, exp):
+    w = 8 if elt == 'f64' else 3
+    return sum(1 if e[0] in ('i', 'P') else w for e in exp)
 
-def mk2(elt, nvars, xs, ys, ops, family, tol=1e-12):
+def _tie(family, n_items, force):
+    left = BUDGET.get(family, 0)
+    if force or n_items <= left:
+        BUDGET[family] = left - n_items
+        return True
+    return False
+
+def mk1(elt, nvars, nodes, ops, family, tol=1e-12, force=False):
+    nt = len(nodes) >= 2 and any(o[0] in WRITES for o in ops)
+    n_items = _cost(elt, ref_hist1(elt, nvars, copy.deepcopy(nodes), copy.deepcopy(ops)))
+    tied = _tie(family, n_items, force)
+    term = hist1_term(elt, nvars, nodes, ops) if tied else None
+    return Case(elt, hist1_line(elt, nvars, nodes, ops), term,
+                meta={"kind": "hist1", "nvars": nvars, "nodes": nodes, "ops": ops}, family=family + ("" if tied else "/search-only"), nontrivial=nt, tol=tol)
+
+def mk2(elt, nvars, xs, ys, ops, family, tol=1e-12, force=False):
     nt = len(xs) >= 2 and len(ys) >= 2 and any(o[0] in WRITES for o in ops)
-    return Case(elt, hist2_line(elt, nvars, xs, ys, ops), hist2_term(elt, nvars, xs, ys, ops),
-                meta={"kind": "hist2", "nvars": nvars, "xs": xs, "ys": ys, "ops": ops}, family=family, nontrivial=nt, tol=tol)
+    n_items = _cost(elt, ref_hist2(elt, nvars, xs, ys, copy.deepcopy(ops)))
+    tied = _tie(family, n_items, force)
+    term = hist2_term(elt, nvars, xs, ys, ops) if tied else None
+    return Case(elt, hist2_line(elt, nvars, xs, ys, ops), term,
+                meta={"kind": "hist2", "nvars": nvars, "xs": xs, "ys": ys, "ops": ops}, family=family + ("" if tied else "/search-only"), nontrivial=nt, tol=tol)
+
+def with_dumps(rng, ops, every):
+    out = []
+    for k, o in enumerate(ops):
+        out.append(o)
+        if (k + 1) % every == 0: out.append(("dump",))
+    if not out or out[-1] != ("dump",): out.append(("dump",))
+    return out
 
 # ----------------------------------------------------------------------------- generators
 def rand_op1(rng, elt, n, nvars, allow_bad=True):
@@ -152,24 +181,24 @@ def interior_points(rng, nodes):
     return pts
 
 def gen_hist1(rng, tier, cases):
-    N = 40 if tier == "quick" else 300
+    N = 160 if tier == "quick" else 1200
     g = rng.fork("hist1-rat")
     for h in range(N):
         n = g.range(2, 12) if h % 8 else g.range(0, 1)
         nvars = g.range(1, 4) if h % 11 else 0
         nodes = grid(g, 'rat', n)
-        ops = [rand_op1(g, 'rat', n, nvars) for _ in range(g.range(4, 24 if n <= 6 else 10))]
+        ops = with_dumps(g, [rand_op1(g, 'rat', n, nvars) for _ in range(g.range(4, 16))], 8)
         cases.append(mk1('rat', nvars, nodes, ops, "hist1-rat"))
     g = rng.fork("hist1-f64")
-    for h in range(N):
+    for h in range(N // 2):
         n = g.range(2, 12); nvars = g.range(1, 4)
         nodes = grid(g, 'f64', n)
         ops = fill1(g, 'f64', n, nvars)
-        ops += [rand_op1(g, 'f64', n, nvars) for _ in range(g.range(0, 6))]
+        ops += [("dump",)] + [rand_op1(g, 'f64', n, nvars) for _ in range(g.range(0, 8))] + [("dump",)]
         cases.append(mk1('f64', nvars, nodes, ops, "hist1-f64"))
     # interpolation: at every node, mid-cells, interior points; integer data and linear data
     g = rng.fork("interp")
-    for h in range(N):
+    for h in range(N + N // 4):
         n = g.range(2, 12); nvars = g.range(1, 4)
         nodes = grid(g, 'f64', n)
         a, b = g.range(-5, 5), g.range(-9, 9)
@@ -181,7 +210,7 @@ def gen_hist1(rng, tier, cases):
         qs = [("interp", x) for x in nodes] + [("interp", x) for x in interior_points(g, nodes)]
         if h % 5 == 0:   # tie only: inside the snapping window, outside the grid
             qs += [("interp", nodes[g.below(n)] + 2.0 ** -26), ("interp", nodes[0] - 0.5), ("interp", nodes[-1] + 2.0 ** -25)]
-        qs = g.shuffle(qs)[:14] + [("interp", nodes[-1]), ("interp", nodes[0])]
+        qs = g.shuffle(qs)[:8] + [("interp", nodes[-1]), ("interp", nodes[0])]
         ops += qs
         ops += [("trap", v) for v in range(nvars)]
         cases.append(mk1('f64', nvars, nodes, ops, "interp-trap1" + ("-linear" if h % 3 == 0 else "")))
@@ -237,12 +266,13 @@ def rand_op2(rng, elt, nx, ny, nvars, allow_bad=True):
     return (name,)
 
 def shape(rng, h):
-    nx, ny = rng.range(2, 12), rng.range(2, 12)
-    if nx == ny and h % 2: ny = 2 + (ny - 1) % 11      # mostly non-square
+    if h % 3 == 0: nx, ny = rng.range(2, 12), rng.range(2, 12)
+    else: nx, ny = rng.range(2, 5), rng.range(2, 6)         # small grids carry the long histories
+    if nx == ny and h % 2: ny = 2 + (ny - 1) % 11           # mostly non-square
     return nx, ny
 
 def gen_hist2(rng, tier, cases):
-    N = 50 if tier == "quick" else 300
+    N = 160 if tier == "quick" else 1200
     for elt in ('rat', 'f64'):
         g = rng.fork("hist2-" + elt)
         for h in range(N):
@@ -250,26 +280,26 @@ def gen_hist2(rng, tier, cases):
             if h % 10 == 9: nx, ny = g.range(0, 2), g.range(0, 3)
             nvars = g.range(1, 4) if h % 13 else 0
             xs, ys = grid(g, elt, nx), grid(g, elt, ny)
-            big = nx * ny * max(nvars, 1) > 60
-            ops = [rand_op2(g, elt, nx, ny, nvars) for _ in range(g.range(3, 7 if big else 22))]
+            big = nx * ny * max(nvars, 1) > 40
+            ops = with_dumps(g, [rand_op2(g, elt, nx, ny, nvars) for _ in range(g.range(3, 6 if big else 16))], 100 if big else 6)
             cases.append(mk2(elt, nvars, xs, ys, ops, "hist2-" + elt))
     # index-map sweeps on (mostly) non-square grids
     g = rng.fork("imap")
     shapes = [(nx, ny) for nx in range(2, 13) for ny in range(2, 13)]
     if tier == "quick": shapes = g.shuffle(shapes)[:36]
     for k, (nx, ny) in enumerate(shapes):
-        elt = 'rat' if k % 2 else 'f64'
+        elt = 'rat' if k % 4 else 'f64'
         nvars = 1 + k % 3
         # distinct integer nodes scaled so that x*1000 + y is injective over the grid
         xs = [cv(elt, t) for t in range(1, nx + 1)]; ys = [cv(elt, Fraction(t, 2)) for t in range(1, ny + 1)]
         var = k % nvars
         f = ("bin", "+", ("bin", "*", ("v", 0), ("lit", cv(elt, 1000))), ("v", 1))
-        ops = [("apply", f, var)]
+        ops = [("apply", f, var), ("dump",)]
         ii = list(range(nx)) if tier == "thorough" else g.shuffle(range(nx))[:3]
         jj = list(range(ny)) if tier == "thorough" else g.shuffle(range(ny))[:3]
         ops += [("xsec", i) for i in ii] + [("ysec", j) for j in jj] + [("varmat", var)]
         ops += [("get", g.below(nx), g.below(ny)), ("idx", g.below(nx), g.below(ny)), ("coord", g.below(nx), g.below(ny))]
-        if k % 4 == 0: ops += [("assign", ival(g, elt)), ("varmat", var)]
+        if k % 4 == 0: ops += [("assign", ival(g, elt)), ("dump",)]
         cases.append(mk2(elt, nvars, xs, ys, ops, "index-map"))
     # quadrature: integer data and bilinear data (exact in f64 on dyadic nodes), files
     g = rng.fork("quad2")
@@ -283,6 +313,7 @@ def gen_hist2(rng, tier, cases):
             else:
                 for _ in range(min(nx * ny, 12)):
                     ops.append(("idxelem", g.below(nx), g.below(ny), v, ival(g, 'f64')))
+        ops += [("get", g.below(nx), g.below(ny)) for _ in range(3)]
         for v in range(nvars): ops += [("trap", v), ("sqtrap", v)]
         if h % 5 == 0 and nx * ny <= 36: ops.append(("file", g.range(0, 9)))
         if h % 5 == 1 and nx * ny <= 36: ops.append(("filevar", g.range(0, 9), g.below(nvars)))
@@ -290,9 +321,13 @@ def gen_hist2(rng, tier, cases):
 
 def generate(rng, tier):
     cases = []
+    per = 1 if tier == "quick" else 6
+    for f, b in (("hist1-rat", 40000), ("hist1-f64", 20000), ("interp-trap1", 50000), ("interp-trap1-linear", 25000), ("file1", 30000),
+                 ("hist2-rat", 60000), ("hist2-f64", 30000), ("index-map", 40000), ("quad2", 20000), ("quad2-bilinear", 20000)):
+        BUDGET[f] = per * b
     gen_hist1(rng, tier, cases)
     gen_hist2(rng, tier, cases)
-    return cases
+    return rng.fork("order").shuffle(cases)      # the model side is sharded in order: spread the heavy families
 
 # ----------------------------------------------------------------------------- corpus / replay
 def _ser(x):
